@@ -364,6 +364,183 @@ Section Proofs.
     change (observe (run (reset (run (init cfg md) h1)) ops) = observe (run (reset (run (init cfg md) h2)) ops)).
     now rewrite !reset_equiv_init.
   Qed.
+  Definition is_setkv (o : op) : bool := match o with SetKV _ _ => true | _ => false end.
+
+  (** ---------- every emitted footer carries the metadata list of its time ---------- *)
+  Definition no_footer (e : event) : Prop := match e with EvFooter _ => False | _ => True end.
+
+  Definition footer_kv (md : list (N * N)) (e : event) : Prop :=
+    match e with EvFooter f => ft_kv f = md | _ => True end.
+
+  Lemma no_footer_kv : forall md evs, Forall no_footer evs -> Forall (footer_kv md) evs.
+  Proof. intros md evs H. eapply Forall_impl; [|exact H]. intros [] Hn; cbn in *; auto; contradiction. Qed.
+
+  Lemma emit_cols_no_footer : forall e cols ci off,
+    Forall no_footer (fst (fst (fst (emit_cols e ci cols off)))).
+  Proof.
+    induction cols as [|c t IH]; intros ci off; cbn; [constructor|].
+    specialize (IH (S ci)).
+    destruct (emit_cols e (S ci) t _) as [[[evs ms] ls] off2] eqn:E.
+    cbn. apply Forall_app; split.
+    - apply Forall_app; split.
+      + destruct (cc_dict (c_cfg c)); repeat constructor.
+      + apply Forall_map. apply Forall_forall. intros; exact I.
+    - specialize (IH (off + evs_size (if cc_dict (c_cfg c) then [EvDictPage ci (a_dict (c_acc c)) (aad_of e c)] else []) + a_size (c_acc c))).
+      rewrite E in IH. exact IH.
+  Qed.
+
+  Lemma emit_blooms_no_footer : forall e cols ms ci off,
+    Forall no_footer (fst (fst (emit_blooms e ci cols ms off))).
+  Proof.
+    induction cols as [|c t IH]; intros ms ci off; cbn; [constructor|].
+    destruct ms as [|m mt]; [constructor|].
+    destruct (cc_bloom (c_cfg c)).
+    - specialize (IH mt (S ci) (off + ev_size (EvBloom ci (a_seen (c_acc c)) (aad_of e c)))).
+      destruct (emit_blooms e (S ci) t mt _) as [[evs ms'] off']. cbn in *. constructor; [exact I|exact IH].
+    - specialize (IH mt (S ci) off).
+      destruct (emit_blooms e (S ci) t mt off) as [[evs ms'] off']. exact IH.
+  Qed.
+
+  Lemma emit_ci_cols_no_footer : forall rgi ms idx ci off,
+    Forall no_footer (fst (fst (emit_ci_cols rgi ci ms idx off))).
+  Proof.
+    induction ms as [|m mt IH]; intros idx ci off; cbn; [constructor|].
+    destruct idx as [|p pt]; [constructor|].
+    destruct p as [|x xt].
+    - specialize (IH pt (S ci) off). destruct (emit_ci_cols rgi (S ci) mt pt off) as [[evs ms'] off']. exact IH.
+    - specialize (IH pt (S ci) (off + ev_size (EvColumnIndex rgi ci (x :: xt)))).
+      destruct (emit_ci_cols rgi (S ci) mt pt _) as [[evs ms'] off']. constructor; [exact I|exact IH].
+  Qed.
+
+  Lemma emit_cindexes_no_footer : forall rgs idx rgi off,
+    Forall no_footer (fst (fst (emit_cindexes rgi rgs idx off))).
+  Proof.
+    induction rgs as [|r rt IH]; intros idx rgi off; cbn; [constructor|].
+    destruct idx as [|i it]; [constructor|].
+    pose proof (emit_ci_cols_no_footer rgi (rg_cols r) i 0%nat off) as H1.
+    destruct (emit_ci_cols rgi 0 (rg_cols r) i off) as [[evs ms] off1].
+    specialize (IH it (S rgi) off1).
+    destruct (emit_cindexes (S rgi) rt it off1) as [[evs2 rs] off2].
+    cbn in *. apply Forall_app; split; assumption.
+  Qed.
+
+  Lemma emit_oi_cols_no_footer : forall rgi ms idx ci off,
+    Forall no_footer (fst (fst (emit_oi_cols rgi ci ms idx off))).
+  Proof.
+    induction ms as [|m mt IH]; intros idx ci off; cbn; [constructor|].
+    destruct idx as [|p pt]; [constructor|].
+    specialize (IH pt (S ci) (off + ev_size (EvOffsetIndex rgi ci p))).
+    destruct (emit_oi_cols rgi (S ci) mt pt _) as [[evs ms'] off']. constructor; [exact I|exact IH].
+  Qed.
+
+  Lemma emit_oindexes_no_footer : forall rgs idx rgi off,
+    Forall no_footer (fst (fst (emit_oindexes rgi rgs idx off))).
+  Proof.
+    induction rgs as [|r rt IH]; intros idx rgi off; cbn; [constructor|].
+    destruct idx as [|i it]; [constructor|].
+    pose proof (emit_oi_cols_no_footer rgi (rg_cols r) i 0%nat off) as H1.
+    destruct (emit_oi_cols rgi 0 (rg_cols r) i off) as [[evs ms] off1].
+    specialize (IH it (S rgi) off1).
+    destruct (emit_oindexes (S rgi) rt it off1) as [[evs2 rs] off2].
+    cbn in *. apply Forall_app; split; assumption.
+  Qed.
+
+  (* invariant: the metadata list is [md] and every footer emitted so far carries [md] *)
+  Definition kvinv (md : list (N * N)) (l : lstate) : Prop :=
+    l_cfgmd l = md /\ l_md l = md /\ Forall (footer_kv md) (l_out l).
+
+  Lemma lflush_core_kv : forall md f l slot, kvinv md l -> kvinv md (fst (lflush_core f l slot)).
+  Proof.
+    intros md f l slot (Hc & Hm & Ho). unfold Model.lflush_core.
+    destruct (l_cols l) as [|c0 ct]; [cbn; repeat split; assumption|].
+    destruct (a_numrows (c_acc c0) + nlen (a_buffer (c_acc c0)) =? 0); [cbn; repeat split; assumption|].
+    set (cols1 := map _ (c0 :: ct)).
+    set (hdr := if l_off l =? 0 then [EvMagic] else []).
+    pose proof (emit_cols_no_footer (cf_encrypted (l_cfg l)) cols1 0%nat (l_off l + evs_size hdr)) as H1.
+    destruct (emit_cols _ _ _ _) as [[[evs ms] locs] off2].
+    pose proof (emit_blooms_no_footer (cf_encrypted (l_cfg l)) cols1 ms 0%nat off2) as H2.
+    destruct (emit_blooms _ _ _ _ _) as [[bevs ms'] off3].
+    cbn in H1, H2.
+    assert (HA : Forall (footer_kv md) (hdr ++ evs ++ bevs)).
+    { apply no_footer_kv. apply Forall_app; split; [subst hdr; destruct (l_off l =? 0); repeat constructor|].
+      apply Forall_app; split; assumption. }
+    destruct (l_broken l); [|destruct f]; cbn; repeat split; try assumption.
+    - apply Forall_app; split; [assumption|]. unfold accepted.
+      rewrite <- (firstn_skipn n (hdr ++ evs ++ bevs)) in HA. apply Forall_app in HA. apply HA.
+    - apply Forall_app; split; assumption.
+  Qed.
+
+  Definition pkv (md : list (N * N)) (p : lstate * list capslot) : Prop := kvinv md (fst p).
+
+  Lemma lflush_pkv : forall md f p, pkv md p -> pkv md (lflush f p).
+  Proof.
+    intros md f [l c] H. unfold pkv in *. cbn in H. unfold Model.lflush. cbn [fst snd].
+    pose proof (lflush_core_kv md f l (hd slot_zero c) H) as A.
+    destruct (lflush_core f l (hd slot_zero c)) as [l' u]. exact A.
+  Qed.
+
+  Lemma lwrite_pkv : forall md fuel p rows, pkv md p -> pkv md (lwrite fuel p rows).
+  Proof.
+    induction fuel as [|f IH]; intros p rows H; cbn; [assumption|].
+    destruct rows as [|r rt]; [assumption|].
+    destruct (_ =? 0).
+    - apply IH, lflush_pkv, H.
+    - apply IH. exact H.
+  Qed.
+
+  Lemma lclose_pkv : forall md p, pkv md p -> pkv md (lclose p).
+  Proof.
+    intros md [l c] (Hc & Hm & Ho). unfold pkv in *. cbn in *. unfold Model.lclose. cbn [fst snd].
+    set (l0 := set_cols_numrows l _ _).
+    assert (H0 : kvinv md l0) by (repeat split; assumption).
+    destruct (l_broken l0 && (l_off l0 =? 0)); [exact H0|].
+    assert (Hh : kvinv md (lheader l0)).
+    { unfold lheader. destruct (l_off l0 =? 0); [|exact H0]. destruct H0 as (A & B & C).
+      repeat split; cbn; try assumption. apply Forall_app; split; [assumption|repeat constructor]. }
+    pose proof (lflush_pkv md None (lheader l0, c) Hh) as H1.
+    destruct (lflush None (lheader l0, c)) as [l1 c1].
+    destruct (l_broken l1); [exact H1|].
+    pose proof (emit_cindexes_no_footer (l_rgs l1) (l_cidx l1) 0%nat (l_off l1)) as N1.
+    destruct (emit_cindexes _ _ _ _) as [[cevs rgs1] off1].
+    pose proof (emit_oindexes_no_footer rgs1 (l_oidx l1) 0%nat off1) as N2.
+    destruct (emit_oindexes _ _ _ _) as [[oevs rgs2] off2].
+    destruct H1 as (A & B & C). cbn in *. repeat split; cbn; try assumption.
+    apply Forall_app; split; [assumption|].
+    apply Forall_app; split; [apply no_footer_kv, N1|].
+    apply Forall_app; split; [apply no_footer_kv, N2|].
+    constructor; [cbn; exact B|constructor].
+  Qed.
+
+  Lemma lstep_pkv : forall md o p, is_setkv o = false ->
+    pkv md p -> pkv md (lstep_gen lreset p o).
+  Proof.
+    intros md o p Hk H. destruct o; cbn in *; try discriminate.
+    - apply lwrite_pkv, H.
+    - apply lflush_pkv, H.
+    - apply lclose_pkv, H.
+    - destruct H as (A & B & C). unfold pkv, kvinv. cbn. repeat split; auto.
+    - apply lflush_pkv, lwrite_pkv, H.
+    - exact H.
+    - apply lflush_pkv, lwrite_pkv, lflush_pkv, H.
+  Qed.
+
+  (** a file written without SetKeyValueMetadata carries exactly the metadata
+      list the writer was constructed with, in every footer *)
+  Theorem footers_carry_metadata : forall cfg md ops,
+    existsb is_setkv ops = false ->
+    Forall (footer_kv md) (observe (run (init cfg md) ops)).
+  Proof.
+    intros cfg md ops.
+    assert (G : forall ops s, existsb is_setkv ops = false ->
+                kvinv md (st_l s) -> kvinv md (st_l (run s ops))).
+    { induction ops0 as [|o t IH]; intros s Hk H; cbn; [assumption|].
+      cbn in Hk. apply orb_false_iff in Hk.
+      apply IH; [apply Hk|].
+      unfold Model.step, Model.step_gen.
+      pose proof (lstep_pkv md o (st_l s, st_caps s) (proj1 Hk) H) as P.
+      destruct (lstep_gen lreset (st_l s, st_caps s) o). exact P. }
+    intros Hk. apply (G ops (init cfg md) Hk). repeat split; constructor.
+  Qed.
 End Proofs.
 
 (** ---------- key/value metadata ---------- *)
